@@ -50,9 +50,12 @@ def rand_text(rng: random.Random, maxlen: int = 8) -> str:
     if recent and r0 < 0.12:
         return rng.choice(recent)
     s = _fresh_text(rng, maxlen)
-    if r0 > 0.97:
+    if r0 > 0.997:
+        # VERY long (thousands of characters): size thresholds of chunked / streaming paths
+        s = "".join(rng.choice(LONG_BITS) for _ in range(rng.choice([40, 90, 200]))) + s
+    elif r0 > 0.97:
         s = "".join(rng.choice(LONG_BITS) for _ in range(rng.randrange(3, 8))) + s
-    if len(s) >= 2:
+    if 2 <= len(s) < 400:
         recent.append(s)
         if len(recent) > 40:
             del recent[rng.randrange(0, len(recent))]
@@ -116,6 +119,17 @@ class ReprObjWs(ReprObj):
     add_ws = True
 
 
+class ReprObjHtml(ReprObj):
+    """a self-rendering object whose _repr_html_() returns its markup as an HTML() object (natural
+    for users of this library) rather than as a plain str"""
+
+    def _repr_html_(self):
+        return HTML(self.s)
+
+
+REPR_RETURNS_HTML = False     # enabled together with the fix of the defect it exposes (see known_findings.json)
+
+
 def _pick(s: str) -> int:
     return (sum(map(ord, s)) * 31 + len(s) * 7) % 997
 
@@ -137,7 +151,8 @@ def mk_html(s: str):
 
 
 def mk_repr(s: str):
-    return ReprObjWs(s) if _pick(s) % 4 == 0 else ReprObj(s)
+    k = _pick(s) % 4
+    return ReprObjWs(s) if k == 0 else ReprObjHtml(s) if (k == 1 and REPR_RETURNS_HTML) else ReprObj(s)
 
 
 class CustomObj:
@@ -350,12 +365,30 @@ def rand_tree(rng: random.Random, depth: int, *, leaves: str = "THRM", names: st
     if valid_nesting and not parent_ws:
         ws = False
     nk = 0 if depth <= 0 else rng.choice([0, 1, 1, 2, 2, 3, maxkids])
+    big = rng.random() if depth > 0 else 1.0
+    if big < 0.012:
+        # WIDE: many children (sizes around powers of two: thresholds of size-dependent fast paths)
+        nk = rng.choice([8, 9, 16, 17, 31, 33, 64, 65, 100, 130])
+        kids = [rand_child(rng, 0 if rng.random() < 0.85 else 1, leaves=leaves, names=names, custom=False,
+                           valid_nesting=valid_nesting, parent_ws=ws, flip_ws=flip_ws, maxkids=2, dup=0.0)
+                for _ in range(nk)]
+        return ("G", name, ws, rand_attrs(rng), kids)
     kids = [rand_child(rng, depth - 1, leaves=leaves, names=names, custom=custom,
                        valid_nesting=valid_nesting, parent_ws=ws, flip_ws=flip_ws,
                        maxkids=maxkids, dup=dup) for _ in range(nk)]
     if kids and rng.random() < dup:
         kids.insert(rng.randrange(0, len(kids) + 1), rng.choice(kids))
-    return ("G", name, ws, rand_attrs(rng), kids)
+    t = ("G", name, ws, rand_attrs(rng), kids)
+    if 0.012 <= big < 0.02:
+        # DEEP: the tree sits at the bottom of a chain of single-child tags (depth-dependent paths)
+        for _ in range(rng.choice([6, 10, 17, 33, 60])):
+            n2, w2 = rand_name(rng, "bi" if "b" in names or "i" in names else names)
+            if valid_nesting and not parent_ws:
+                w2 = False
+            if valid_nesting and not w2:
+                break                      # an inline wrapper around a block subtree would be an invalid nesting
+            t = ("G", n2, w2, [], [t] if rng.random() < 0.8 else [("T", "x"), t])
+    return t
 
 
 def rand_child(rng: random.Random, depth: int, **kw) -> Any:
